@@ -203,10 +203,10 @@ ListOutcome ==
          /\ IF variant = "future"
             THEN phase' = "returned" /\ FutComplete          \* except Exception as e: future.set_exception(e)
             ELSE phase' = "raised" /\ UNCHANGED <<futN, futVal, futExc, futOut>>
-    ELSE /\ out' = ResultsInOrder
+    ELSE \* (future variant: the list is dropped; the future is completed by the _put_result that saw "all done")
+         /\ out' = ResultsInOrder
          /\ phase' = "returned"
-         /\ UNCHANGED raised
-         /\ IF variant = "future" THEN FutComplete ELSE UNCHANGED <<futN, futVal, futExc, futOut>>
+         /\ UNCHANGED <<raised, futN, futVal, futExc, futOut>>
 
 Collect ==
     /\ phase = "collect" /\ holder = "none"
@@ -257,8 +257,10 @@ CallerDone == phase \in {"returned", "raised", "finished"}
 Terminal == CallerDone /\ running = {} /\ holder = "none" /\ ~pendFut
 Finish == Terminal /\ UNCHANGED vars
 
+CompleteAny == \E i \in Stmts : Complete(i)
+
 Next == \/ EmptyCall \/ BeginSubmit \/ Start \/ Put \/ Ret \/ FutCheck
-        \/ \E i \in Stmts : Complete(i)
+        \/ CompleteAny
         \/ Collect \/ Wake \/ Consume \/ GWake
         \/ Finish
 
@@ -307,6 +309,9 @@ FailFastFirst ==
 FutureAtMostOnce == futN <= 1 /\ (variant # "future" => futN = 0)
 FutureCompleted == (variant = "future" /\ Terminal) => futN = 1
 
+\* no lost wake-up: a state that is not Terminal always has a next step
+NotStuck == ENABLED Next
+
 \* termination: every behaviour reaches Terminal (checked as: no deadlock other than Terminal, plus <>Terminal)
 Terminates == <>Terminal
 
@@ -317,4 +322,13 @@ Witness_FailFastWhileRunning == ~(phase = "raised" /\ running # {})
 Witness_FutureByCaller == ~(variant = "future" /\ act.name \in {"Wake", "Collect"} /\ futVal = "exc" /\ running # {})
 Witness_GenWaits == ~(phase = "gwaiting")
 Witness_FullConcurrency == ~(peak = c /\ c >= 2 /\ Cardinality(running) = c)
+\* the same witnesses as stuttering probe actions: with NEXT NextW and -coverage, a non-zero count for W_x
+\* shows x is reachable without a separate TLC run (NextW is used for nothing else)
+W_SyncChain == ~Witness_SyncChain /\ UNCHANGED vars
+W_WaitAndWake == ~Witness_WaitAndWake /\ UNCHANGED vars
+W_FailFastWhileRunning == ~Witness_FailFastWhileRunning /\ UNCHANGED vars
+W_FutureByCaller == ~Witness_FutureByCaller /\ UNCHANGED vars
+W_GenWaits == ~Witness_GenWaits /\ UNCHANGED vars
+W_FullConcurrency == ~Witness_FullConcurrency /\ UNCHANGED vars
+NextW == Next \/ W_SyncChain \/ W_WaitAndWake \/ W_FailFastWhileRunning \/ W_FutureByCaller \/ W_GenWaits \/ W_FullConcurrency
 =============================================================================
